@@ -292,9 +292,11 @@ def leader_presets(params, rng):
     v["dataset_summary/scene_center_time"] = V.pad(
         f"{sc.year:04d}{sc.month:02d}{sc.day:02d}{sc.hour:02d}{sc.minute:02d}{sc.second:02d}{frac}", 32, rng, allow_left=False
     )
-    v["platform_position/datetime_of_first_point/date"] = V.pad(
-        f"{year:04d} {month:02d} {day:02d}", 12, rng
-    )
+    # "YYYY MM DD": three I4 integers - zero-padded with separating blanks, or blank-padded
+    if rng.randrange(3) == 0:
+        v["platform_position/datetime_of_first_point/date"] = f"{year:4d}{month:4d}{day:4d}"
+    else:
+        v["platform_position/datetime_of_first_point/date"] = V.pad(f"{year:04d} {month:02d} {day:02d}", 12, rng)
     v["platform_position/datetime_of_first_point/day_of_year"] = f"{inst['doy']:4d}"
     # seconds of the day as decimal text (ms resolution keeps the float exact enough: see model)
     v["platform_position/datetime_of_first_point/seconds_of_day"] = V.pad(
